@@ -452,7 +452,7 @@ def channel_per_batch(ctx, facts):
 def index_arith(ctx, facts):
     """Which batch a record belongs to, its position inside it and the size of that batch - evaluated."""
     from rules.C13 import ieval, NoEval
-    ctx.rule("INDEX-arith: with b = records_per_batch, f = first_batch, T = total records and record id r in a batch not yet validated: first_batch + batch_offset(r) = r div b; the position used for the pending bit is r mod b; the readiness threshold is the true size of that batch, min(b, T - (r div b)*b) - evaluated from the extracted expressions (batch_offset inlined) for b = 1..5, f = 0..3, T = 1..24 and every admissible r")
+    ctx.rule("INDEX-arith: with b = records_per_batch, f = first_batch, T = total records and record id r in a batch not yet validated: first_batch + batch_offset(r) = r div b; the position used for the pending bit is r mod b; the readiness threshold is the true size of that batch, min(b, T - (r div b)*b); a record of an already validated batch (r < f*b) is given no batch at all - evaluated from the extracted expressions (batch_offset inlined) for b = 1..5, f = 0..3, T = 1..24 and every admissible r")
     P = "protocol::context::batcher::Batcher::<'a, B>::"
     b = facts.bodies.get(P + "is_ready_for_validation")
     if b is None or (P + "batch_offset") not in facts.bodies:
@@ -488,6 +488,16 @@ def index_arith(ctx, facts):
                         want = min(rpb, tot - (r // rpb) * rpb)
                         if t != want and bad is None:
                             bad = f"b={rpb}, total={tot}: the batch of record {r} is released after {t} records, it holds {want}"
+        # a record of a batch that was already validated (r < first_batch * b) must not be given any batch
+        for rpb in range(1, 6):
+            for fb in range(1, 4):
+                for r in range(0, fb * rpb):
+                    try:
+                        o = ieval(off, {RID: r, ("arg", 2): r, RPB: rpb, FB: fb, TOT: 100})
+                    except NoEval:
+                        continue            # the checked subtraction has no value: the panic path
+                    if bad is None:
+                        bad = f"b={rpb}, first_batch={fb}: record {r} belongs to the already validated batch {r // rpb} but is silently filed under batch {fb + o} (its request counts towards a batch it is not part of)"
     except NoEval as ex:
         bad = f"cannot evaluate ({ex})"
     ctx.ob("INDEX-arith", "batch-position-size", bad is None, f"batch index, position and batch size agree with div / mod / min on all {n} grid points" if bad is None else bad, site_of(b, mins[0][0]))
